@@ -73,6 +73,7 @@ Definition finish (upd : bool) (cols : list col) (db : list pset) (r : result (l
 (* input  L [I op; L cols; L base rows; L psets; flags (implementation side only)]   op 0 Core INSERT, 1 Core UPDATE, 2 ORM INSERT (psets =
           attribute dictionaries), 3 ORM UPDATE (psets = new attribute values incl. key 0 = the row)
           4 insert(t).values([rows]), 5 Core UPDATE ... ordered_values (5th element = the ordered keys),
+          8 ORM bulk UPDATE by primary key (mappings),
           6 INSERT whose integer primary key has a pre-executed SQL default (5th element = [fetched value])
    output L [I 0; rows in insertion order (values in column order); call counts per callable]
         | L [I 1; group; key]  ("A value is required for bind parameter")
@@ -94,6 +95,11 @@ Definition run_case (t : tree) : tree :=
                  (filter (fun po => has_change (fst po))
                     (map (fun po => (orm_update_params cols (match snd po with Some o => o | None => [] end) (fst po),
                                      snd po)) (combine ps olds))) [])
+          else if Z.eqb op 8 then
+            finish true cols base
+              (orm_exec' (S (length ps)) cols
+                 (filter (fun po => has_change (fst po))
+                    (map (fun po => (orm_bulk_update_params cols (fst po), snd po)) (combine ps olds))) [])
           else if Z.eqb op 4 then
             (* insert(t).values([rows]) ; context callables are not part of this family *)
             if existsb (fun c => match cdef c with CtxCallable _ => true | _ => false end) cols then bad_input
